@@ -158,4 +158,207 @@ def c20(report, rng, tier, findings):
         "empty-binding insert (flat store) and empty-binding check (poisons the seen set) are modelled, not claimed"]
 
 
-HANDLERS = {'C20': c20}
+# ------------------------------------------------------------------------------------------- C08
+
+def c08_gen(rng, cid, tier):
+    """A well-bracketed history with iterator operations anywhere."""
+    n = rng.randint(2, 10 if tier == 'quick' else 16)
+    ops, depth = [], 0
+    n_iters = rng.randint(0, 3)
+    iters = {}        # id -> ('fresh'|'live'|'done', advances)
+    next_it = 0
+    for _ in range(n):
+        choices = ['es', 'es', 'ew']
+        if depth > 0:
+            choices += ['lv', 'lv', 'lvx']
+        if next_it < n_iters:
+            choices += ['ic']
+        live = [i for i, (st, _) in iters.items() if st != 'dropped']
+        if live:
+            choices += ['ia', 'ia', 'cl', 'drop']
+        c = rng.choice(choices)
+        if c == 'es':
+            ops.append(('es', rng.choice('qr'), rng.randint(0, 1)))
+            depth += 1
+        elif c == 'ew':
+            ops.append(('ew',))
+            depth += 1
+        elif c in ('lv', 'lvx'):
+            ops.append((c,))
+            depth -= 1
+        elif c == 'ic':
+            ops.append(('ic', next_it))
+            iters[next_it] = ('fresh', 0)
+            next_it += 1
+        elif c == 'ia':
+            i = rng.choice(live)
+            st, adv = iters[i]
+            exhausted = 1 if (st == 'done' or adv >= 2) else 0
+            ops.append(('ia', i, exhausted))
+            iters[i] = ('done' if exhausted else 'live', adv + 1)
+        elif c == 'cl':
+            i = rng.choice(live)
+            ops.append(('cl', i))
+            iters[i] = ('done', iters[i][1])
+        elif c == 'drop':
+            i = rng.choice(live)
+            ops.append(('drop', i))
+            iters[i] = ('dropped', iters[i][1])
+    while depth > 0:
+        ops.append((rng.choice(('lv', 'lvx')),))
+        depth -= 1
+    return {'id': cid, 'ops': ops}
+
+
+def c08_sexp(case):
+    conv = []
+    for op in case['ops']:
+        if op[0] == 'lvx':
+            conv.append(('lv',))
+        elif op[0] == 'drop':
+            conv.append(('cl', op[1]))
+        else:
+            conv.append(op)
+    return sexp(('mode', case['id'], ('ops',) + tuple(conv)))
+
+
+class _LeaveByException(Exception):
+    pass
+
+
+def c08_impl(case):
+    """Interpret the history with REAL `with` statements (recursively), observing after every step."""
+    import gc
+    from dataclasses import dataclass
+    from . import impl
+    from entity_query_language import symbol, let, an, entity, symbolic_mode, rule_mode
+    from entity_query_language.symbolic import in_symbolic_mode, SymbolicExpression
+    from entity_query_language.enums import EQLMode
+    impl.reset_library_state()
+    base_stack = len(SymbolicExpression._symbolic_expression_stack_)
+
+    @symbol
+    @dataclass(eq=False)
+    class S:
+        a: int = 0
+
+    objs = [S(1), S(2)]
+    x = let(S, objs)
+    with symbolic_mode():
+        queries = [an(entity(let(S, objs), x.a > 0)) for _ in range(4)]
+        ctxq = an(entity(x, x.a > 0))
+    its = {}
+    obs = []
+    ops = case['ops']
+
+    def observe():
+        try:
+            inst = S(5)
+            concrete = isinstance(inst, S)
+        except Exception:
+            concrete = False
+        try:
+            _ = (x == 1)
+            rejected = False
+        except AttributeError:
+            rejected = True
+        obs.append('%d%d%d%d%d' % (in_symbolic_mode(), in_symbolic_mode(EQLMode.Rule), concrete, rejected,
+                                   len(SymbolicExpression._symbolic_expression_stack_) - base_stack))
+
+    def run(i):
+        """process ops from index i until the leave that closes the current block; returns (next index, by_exception)"""
+        while i < len(ops):
+            op = ops[i]
+            k = op[0]
+            if k == 'es':
+                cm = (rule_mode if op[1] == 'r' else symbolic_mode)
+                arg = ctxq if op[2] else None
+                try:
+                    with cm(arg):
+                        observe()
+                        i, exc = run(i + 1)
+                        if exc:
+                            raise _LeaveByException()
+                except _LeaveByException:
+                    pass
+                observe()
+            elif k == 'ew':
+                try:
+                    with ctxq:
+                        observe()
+                        i, exc = run(i + 1)
+                        if exc:
+                            raise _LeaveByException()
+                except _LeaveByException:
+                    pass
+                observe()
+            elif k in ('lv', 'lvx'):
+                return i + 1, k == 'lvx'
+            else:
+                if k == 'ic':
+                    its[op[1]] = queries[op[1]].evaluate()
+                elif k == 'ia':
+                    try:
+                        next(its[op[1]])
+                    except StopIteration:
+                        pass
+                elif k == 'cl':
+                    its[op[1]].close()
+                elif k == 'drop':
+                    del its[op[1]]
+                    gc.collect()
+                observe()
+                i += 1
+                continue
+            # after a block: i already points past its leave
+        return i, False
+
+    try:
+        run(0)
+    except Exception as e:
+        obs.append(f'EXC:{type(e).__name__}:{e}')
+    finally:
+        its.clear()
+        gc.collect()
+        impl.reset_library_state()
+    return obs
+
+
+def c08(report, rng, tier, findings):
+    n = n_cases(tier, 300, 4000)
+    cases = [c08_gen(rng, f'm{i}', tier) for i in range(n)]
+    impl_res = pmap(c08_impl, cases)
+    lines = run_driver([c08_sexp(c) for c in cases])
+    report.rule = ("random well-bracketed histories (2-10 steps, thorough 16) of entering/leaving symbolic_mode / rule_mode blocks "
+                   "(with and without a query) and `with query:` blocks - leaving normally or by raising - interleaved with creating, "
+                   "advancing, exhausting, closing and dropping (gc) result iterators at any point; executed with REAL with-statements; "
+                   "after every step in_symbolic_mode(), in_symbolic_mode(Rule), type(Symbol(..)), whether `x == 1` raises and the "
+                   "expression-stack length are compared with the model and the reference; non-trivial = the history has an iterator "
+                   "operation inside a block or after the block it was created in")
+    for case, obs, line in zip(cases, impl_res, lines):
+        report.evaluations += 1
+        if line.startswith('ERR'):
+            raise HarnessError('driver: ' + line + ' :: ' + c08_sexp(case))
+        model = line.split('\t')[1].split('|')
+        # the implementation observes at enter, (inner...), after leave: same sequence as one observation per op
+        kinds = [op[0] for op in case['ops']]
+        for k in kinds:
+            report.count('op_' + k)
+        if any(k in ('ia', 'cl', 'drop') for k in kinds) and any(k in ('es', 'ew') for k in kinds):
+            report.nontrivial.add(c08_sexp({**case, 'id': 'x'}))
+        report.add_sample(c08_sexp(case))
+        report.traces += len(obs)
+        if obs != model:
+            # the reference stack machine is what the model is proved equal to (c08_confined): a difference is a violation
+            step = next((j for j, (a, b) in enumerate(zip(obs, model)) if a != b), min(len(obs), len(model)))
+            what = (f'after step {step} ({case["ops"][step] if step < len(case["ops"]) else "end"}): observed '
+                    f'{obs[step] if step < len(obs) else None}, expected {model[step] if step < len(model) else None} '
+                    '(in_symbolic, in_rule, concrete construction, operators rejected, stack length)')
+            report.violations.append((what, {'what': what, 'case': case, 'case_sexp': c08_sexp(case),
+                                             'observed': obs, 'expected': model}))
+    return ['EqlModel.Props.C08'], [
+        "single thread (other threads / asyncio tasks have their own context)",
+        "CPython runs a generator's finally block at close()/finalisation; the position of that step is universally quantified"]
+
+
+HANDLERS = {'C20': c20, 'C08': c08}
